@@ -133,7 +133,7 @@ impl Prog {
             fmt_body(&p.body, &mut body, 1);
             // inside the module its own procedures are referred to by their bare names
             let prefix = &p.name[..p.name.len() - short.len()];
-            s.push_str(&body.replace(&format!("exec.{prefix}"), "exec."));
+            s.push_str(&body.replace(&format!("exec.{prefix}"), "exec.").replace(&format!("call.{prefix}"), "call."));
             s.push_str("end\n");
         }
         Some(s)
